@@ -1,53 +1,428 @@
-/- C02: correctness of the emit layer on local slots, for every index (near and far) and every operand position. -/
-import JanetModel.Emit.Model
+/- C02: correctness of the emit layer (pure emitters of Emit/Model.lean on the machine of Emit/Machine.lean) for every
+   combination of slot kinds (local near / far, upvalue, constant, ref) and every index, and of the temporary allocator. -/
+import JanetModel.Emit.Machine
 namespace JanetModel.Emit
 
-variable {α : Type}
+variable {β : Type}
 set_option linter.unusedVariables false
 
-theorem upd_same (regs : Nat → α) (i : Nat) (v : α) : upd regs i v i = v := by simp [upd]
-theorem upd_other (regs : Nat → α) (i j : Nat) (v : α) (h : j ≠ i) : upd regs i v j = regs j := by simp [upd, h]
+theorem run_append (lit : KConst → β) (F) (m : M β) (a b : List MI) : run lit F m (a ++ b) = run lit F (run lit F m a) b := by
+  simp [run, List.foldl_append]
 
-/-- `janetc_emit_sss`, wr = 1, all 8 near/far combinations of (dest, a, b) and all indices: the destination receives
-    `f a b` computed from the ORIGINAL operand values and every register that is not one of the three temporaries keeps
-    its value.  Hypotheses = what the allocator guarantees: temporaries are near, pairwise distinct and are not the
-    operands' own registers. -/
-theorem emit_sss_correct (f : α → α → α) (g : Nat → α → α) (regs : Nat → α) (op dest a b t0 t1 t2 : Nat)
-    (h01 : t0 ≠ t1) (h02 : t0 ≠ t2) (h12 : t1 ≠ t2)
-    (hd0 : dest ≠ t0) (hd1 : dest ≠ t1) (hd2 : dest ≠ t2)
-    (ha0 : a ≠ t0) (ha1 : a ≠ t1) (ha2 : a ≠ t2)
-    (hb0 : b ≠ t0) (hb1 : b ≠ t1) (hb2 : b ≠ t2) :
-    ∀ r, r ≠ t0 → r ≠ t1 → r ≠ t2 →
-      run f g regs (emitSSS op dest a b t0 t1 t2) r = if r = dest then f (regs a) (regs b) else regs r := by
-  intro r hr0 hr1 hr2
-  by_cases hdn : dest ≤ 0xFF <;> by_cases han : a ≤ 0xFF <;> by_cases hbn : b ≤ 0xFF <;>
-    simp [emitSSS, regnear, moveback, run, exec, upd, hdn, han, hbn] <;>
-    (by_cases hrd : r = dest <;> simp_all [exec, upd, Ne.symm])
+theorem run_nil (lit : KConst → β) (F) (m : M β) : run lit F m [] = m := rfl
+theorem run_cons (lit : KConst → β) (F) (m : M β) (i : MI) (is : List MI) : run lit F m (i :: is) = run lit F (exec lit F m i) is := rfl
 
-/-- `janetc_emit_ssi` / `janetc_emit_ssu`, wr = 1 -/
-theorem emit_ssi_correct (f : α → α → α) (g : Nat → α → α) (regs : Nat → α) (op dest a imm t0 t1 : Nat)
-    (h01 : t0 ≠ t1) (hd0 : dest ≠ t0) (hd1 : dest ≠ t1) (ha0 : a ≠ t0) (ha1 : a ≠ t1) :
-    ∀ r, r ≠ t0 → r ≠ t1 →
-      run f g regs (emitSSI op dest a imm t0 t1) r = if r = dest then g imm (regs a) else regs r := by
-  intro r hr0 hr1
-  by_cases hdn : dest ≤ 0xFF <;> by_cases han : a ≤ 0xFF <;>
-    simp [emitSSI, regnear, moveback, run, exec, upd, hdn, han] <;>
-    (by_cases hrd : r = dest <;> simp_all [exec, upd, Ne.symm])
+theorem upd_same {α : Type} (f : Nat → α) (i : Nat) (v : α) : upd f i v i = v := by simp [upd]
+theorem upd_other {α : Type} (f : Nat → α) (i j : Nat) (v : α) (h : j ≠ i) : upd f i v j = f j := by simp [upd, h]
 
-/-- `janetc_copy` between local slots: all four near/far combinations -/
-theorem copy_correct (f : α → α → α) (g : Nat → α → α) (regs : Nat → α) (dest src t3 : Nat)
-    (hd : dest ≠ t3) (hs : src ≠ t3) :
-    ∀ r, r ≠ t3 → run f g regs (copy dest src t3) r = if r = dest then regs src else regs r := by
-  intro r hr
+theorem Sim.refl (T : List Nat) (m : M β) : Sim T m m := ⟨fun _ _ => rfl, rfl, rfl, rfl, rfl⟩
+
+theorem Sim.trans {T : List Nat} {a b c : M β} (h1 : Sim T a b) (h2 : Sim T b c) : Sim T a c :=
+  ⟨fun x hx => (h1.regs x hx).trans (h2.regs x hx), h1.up.trans h2.up, h1.cell.trans h2.cell, h1.log.trans h2.log, h1.ok.trans h2.ok⟩
+
+theorem Sim.mono {T U : List Nat} {a b : M β} (h : Sim T a b) (hs : ∀ x, x ∈ T → x ∈ U) : Sim U a b :=
+  ⟨fun x hx => h.regs x (fun hm => hx (hs x hm)), h.up, h.cell, h.log, h.ok⟩
+
+theorem Sim.symm {T : List Nat} {a b : M β} (h : Sim T a b) : Sim T b a :=
+  ⟨fun x hx => (h.regs x hx).symm, h.up.symm, h.cell.symm, h.log.symm, h.ok.symm⟩
+
+/-- reading a slot is insensitive to the temporaries as long as the slot is not one of them -/
+theorem readSlot_sim (lit : KConst → β) {T : List Nat} {a b : M β} (h : Sim T a b) (s : Slot) (hs : s.avoids T) :
+    readSlot lit a s = readSlot lit b s := by
+  cases s with
+  | loc i => exact h.regs i (hs i rfl)
+  | up e i => simp [readSlot, h.up]
+  | const k => rfl
+  | ref id => simp [readSlot, h.cell]
+
+/-- `janetc_movenear`: afterwards register `t` holds the slot's value, nothing else changed -/
+theorem movenear_run (lit : KConst → β) (F) (cidx : KConst → Nat) (m : M β) (t : Nat) (s : Slot) :
+    (run lit F m (movenear cidx t s)).regs t = readSlot lit m s ∧ Sim [t] (run lit F m (movenear cidx t s)) m := by
+  cases s with
+  | loc i =>
+    by_cases h : i = t
+    · subst h; simp [movenear, run, readSlot]; exact Sim.refl _ _
+    · simp only [movenear, h, ne_eq, not_false_eq_true, if_true, run, List.foldl, exec, readSlot, upd_same, true_and]
+      exact ⟨fun x hx => by simp at hx; simp [upd, hx], rfl, rfl, rfl, rfl⟩
+  | up e i =>
+    simp only [movenear, run, List.foldl, exec, readSlot, upd_same, true_and]
+    exact ⟨fun x hx => by simp at hx; simp [upd, hx], rfl, rfl, rfl, rfl⟩
+  | const k =>
+    simp only [movenear, run, List.foldl, exec, readSlot, upd_same, true_and]
+    exact ⟨fun x hx => by simp at hx; simp [upd, hx], rfl, rfl, rfl, rfl⟩
+  | ref id =>
+    simp only [movenear, run, List.foldl, exec, readSlot, upd_same, true_and]
+    exact ⟨fun x hx => by simp at hx; simp [upd, hx], rfl, rfl, rfl, rfl⟩
+
+/-- `janetc_regnear`: the returned register holds the slot's value; only the temporary may have changed; the register is
+    the temporary or the slot's own near register -/
+theorem regnear_run (lit : KConst → β) (F) (cidx : KConst → Nat) (m : M β) (s : Slot) (t : Nat) :
+    (run lit F m (regnear cidx s t).2).regs (regnear cidx s t).1 = readSlot lit m s ∧
+    Sim [t] (run lit F m (regnear cidx s t).2) m ∧
+    ((regnear cidx s t).1 = t ∨ s = .loc (regnear cidx s t).1) := by
+  unfold regnear
+  by_cases hn : s.nearLocal = true
+  · rw [if_pos hn]
+    cases s with
+    | loc i => exact ⟨rfl, Sim.refl _ _, Or.inr rfl⟩
+    | up e i => simp [Slot.nearLocal] at hn
+    | const k => simp [Slot.nearLocal] at hn
+    | ref id => simp [Slot.nearLocal] at hn
+  · rw [if_neg hn]
+    have := movenear_run lit F cidx m t s
+    exact ⟨this.1, this.2, Or.inl rfl⟩
+
+/-- `janetc_regfar` -/
+theorem regfar_run (lit : KConst → β) (F) (cidx : KConst → Nat) (m : M β) (s : Slot) (t fr : Nat) :
+    (run lit F m (regfar cidx s t fr).2).regs (regfar cidx s t fr).1 = readSlot lit m s ∧
+    Sim [t, fr] (run lit F m (regfar cidx s t fr).2) m ∧
+    ((regfar cidx s t fr).1 = t ∨ (regfar cidx s t fr).1 = fr ∨ s = .loc (regfar cidx s t fr).1) := by
+  unfold regfar
+  by_cases hl : s.isLocal = true
+  · rw [if_pos hl]
+    cases s with
+    | loc i => exact ⟨rfl, Sim.refl _ _, Or.inr (Or.inr rfl)⟩
+    | up e i => simp [Slot.isLocal] at hl
+    | const k => simp [Slot.isLocal] at hl
+    | ref id => simp [Slot.isLocal] at hl
+  · rw [if_neg hl]
+    have hm := movenear_run lit F cidx m t s
+    by_cases ht : t ≥ 0xF0
+    · rw [if_pos ht]
+      simp only [run_append, run_cons, run_nil, exec, upd_same]
+      refine ⟨hm.1, ?_, by simp⟩
+      refine ⟨fun x hx => ?_, hm.2.up, hm.2.cell, hm.2.log, hm.2.ok⟩
+      simp at hx
+      simp only [upd, hx.2, if_false]
+      exact hm.2.regs x (by simp [hx.1])
+    · rw [if_neg ht]
+      exact ⟨hm.1, hm.2.mono (by intro x hx; simp at hx; simp [hx]), Or.inl rfl⟩
+
+/-- `janetc_moveback`: the destination slot receives register `r`; only the tag-5 temporary may change besides -/
+theorem moveback_run (lit : KConst → β) (F) (cidx : KConst → Nat) (m : M β) (s : Slot) (r t5 : Nat)
+    (hc : ∀ k, s ≠ .const k) (h5 : t5 ≠ r) :
+    Sim [t5] (run lit F m (moveback cidx t5 s r)) (writeSlot m s (m.regs r)) := by
+  cases s with
+  | const k => exact absurd rfl (hc k)
+  | loc i =>
+    by_cases h : i = r
+    · subst h
+      simp only [moveback, ne_eq, not_true_eq_false, if_false, run_nil, writeSlot]
+      exact ⟨fun x _ => by simp [upd]; intro hx; rw [hx], rfl, rfl, rfl, rfl⟩
+    · simp only [moveback, h, ne_eq, not_false_eq_true, if_true, run_cons, run_nil, exec, writeSlot]
+      exact Sim.refl _ _
+  | up e i =>
+    simp only [moveback, run_cons, run_nil, exec, writeSlot]
+    exact Sim.refl _ _
+  | ref id =>
+    simp only [moveback, run_cons, run_nil, exec, writeSlot, upd_same]
+    refine ⟨fun x hx => ?_, rfl, ?_, rfl, rfl⟩
+    · simp at hx; simp [upd, hx]
+    · simp [upd_other _ _ _ _ (Ne.symm h5)]
+
+theorem writeSlot_sim {T : List Nat} {a b : M β} (s : Slot) (v : RV β) (e : Nat)
+    (h : Sim (e :: T) a b) (he : e ∈ T ∨ s = .loc e) : Sim T (writeSlot a s v) (writeSlot b s v) := by
+  have hr : ∀ x, x ∉ T → x ≠ e → a.regs x = b.regs x := fun x hx hxe => h.regs x (by simp [hx, hxe])
+  cases s with
+  | loc i =>
+    refine ⟨fun x hx => ?_, h.up, h.cell, h.log, h.ok⟩
+    simp only [writeSlot, upd]
+    by_cases hxi : x = i
+    · simp [hxi]
+    · simp only [hxi, if_false]
+      rcases he with he | he
+      · exact hr x hx (fun hxe => hx (hxe ▸ he))
+      · injection he with he; exact hr x hx (he ▸ hxi)
+  | up e' i =>
+    rcases he with he | he
+    · exact ⟨fun x hx => hr x hx (fun hxe => hx (hxe ▸ he)), by simp [writeSlot, h.up], h.cell, h.log, h.ok⟩
+    · cases he
+  | ref id =>
+    rcases he with he | he
+    · exact ⟨fun x hx => hr x hx (fun hxe => hx (hxe ▸ he)), h.up, by simp [writeSlot, h.cell], h.log, h.ok⟩
+    · cases he
+  | const k =>
+    rcases he with he | he
+    · exact ⟨fun x hx => hr x hx (fun hxe => hx (hxe ▸ he)), h.up, h.cell, h.log, h.ok⟩
+    · cases he
+
+/-- payload without write-back -/
+theorem payload_nowr (lit : KConst → β) (F) {T : List Nat} {m3 m : M β} (op : Nat) (sh : Shape) (rs : List Nat) (rest : Nat)
+    (vals : List (RV β)) (h : Sim T m3 m) (hv : rs.map m3.regs = vals) :
+    Sim T (run lit F m3 [.pay op sh false rs rest]) (logged m op vals) := by
+  simp only [run_cons, run_nil, exec, logged, Bool.false_eq_true, if_false, hv]
+  exact ⟨h.regs, h.up, h.cell, by simp [h.log], h.ok⟩
+
+/-- payload with write-back through `janetc_moveback` -/
+theorem payload_wr (lit : KConst → β) (F) (cidx : KConst → Nat) {T : List Nat} {m3 m : M β} (op : Nat) (sh : Shape)
+    (r1 : Nat) (srcs : List Nat) (rest : Nat) (s1 : Slot) (t5 : Nat) (vals : List (RV β))
+    (h : Sim T m3 m) (hv : srcs.map m3.regs = vals) (hr1 : r1 ∈ T ∨ s1 = .loc r1) (ht5 : t5 ∈ T) (h5 : t5 ≠ r1)
+    (hc : ∀ k, s1 ≠ .const k) :
+    Sim T (run lit F m3 ([.pay op sh true (r1 :: srcs) rest] ++ moveback cidx t5 s1 r1))
+      (writeSlot (logged m op vals) s1 (F op vals)) := by
+  rw [run_append]
+  simp only [run_cons, run_nil, exec, if_true, List.tail_cons, List.headD_cons, hv]
+  have hmb := moveback_run lit F cidx
+    ({ m3 with log := m3.log ++ [(op, vals)], regs := upd m3.regs r1 (F op vals) } : M β) s1 r1 t5 hc h5
+  simp only [upd_same] at hmb
+  refine Sim.trans (hmb.mono (by intro x hx; simp at hx; rw [hx]; exact ht5)) ?_
+  apply writeSlot_sim s1 (F op vals) r1 _ hr1
+  refine ⟨fun x hx => ?_, h.up, h.cell, by simp [logged, h.log], h.ok⟩
+  simp at hx
+  simp only [upd, hx.1, if_false, logged]
+  exact h.regs x hx.2
+
+/-! ### the emitters -/
+
+theorem sim_chain2 {t0 t1 : Nat} {T : List Nat} {m m1 m2 : M β} (h1 : Sim [t0] m1 m) (h2 : Sim [t1] m2 m1)
+    (i0 : t0 ∈ T) (i1 : t1 ∈ T) : Sim T m2 m :=
+  (h2.mono (by intro x hx; simp at hx; rw [hx]; exact i1)).trans (h1.mono (by intro x hx; simp at hx; rw [hx]; exact i0))
+
+/-- a register produced by `regnear s t` is not another temporary `u` -/
+theorem reg_ne {s : Slot} {T : List Nat} {r t u : Nat} (hr : r = t ∨ s = .loc r) (htu : t ≠ u) (ha : s.avoids T) (hu : u ∈ T) : r ≠ u := by
+  rcases hr with hr | hr
+  · rw [hr]; exact htu
+  · intro h; exact ha r hr (h ▸ hu)
+
+theorem reg_in {s : Slot} {T : List Nat} {r t : Nat} (hr : r = t ∨ s = .loc r) (ht : t ∈ T) : r ∈ T ∨ s = .loc r := by
+  rcases hr with hr | hr
+  · exact Or.inl (hr ▸ ht)
+  · exact Or.inr hr
+
+theorem avoids_sub {s : Slot} {T U : List Nat} (ha : s.avoids T) (h : ∀ x, x ∈ U → x ∈ T) : s.avoids U :=
+  fun i hi hm => ha i hi (h i hm)
+
+/-- `janetc_emit_sss` for EVERY combination of slot kinds and indices.  wr = 1: the destination slot receives `F op [s2, s3]`
+    (values of the source slots in the ORIGINAL state), the payload is logged with exactly those values, everything except the
+    temporaries is otherwise unchanged.  wr = 0: the payload saw the three slot values, nothing but temporaries changed.
+    Hypotheses = what the allocator guarantees (`regtemp_disjoint`): temporaries pairwise distinct and not operand registers. -/
+theorem emit_sss_correct (lit : KConst → β) (F) (cidx : KConst → Nat) (m : M β) (op : Nat) (wr : Bool) (s1 s2 s3 : Slot)
+    (t0 t1 t2 t5 : Nat) (h01 : t0 ≠ t1) (h02 : t0 ≠ t2) (h12 : t1 ≠ t2) (h50 : t5 ≠ t0)
+    (a1 : s1.avoids [t0, t1, t2, t5]) (a2 : s2.avoids [t0, t1, t2, t5]) (a3 : s3.avoids [t0, t1, t2, t5])
+    (hw : wr = true → ∀ k, s1 ≠ .const k) :
+    Sim [t0, t1, t2, t5] (run lit F m (emitSSS cidx op wr s1 s2 s3 t0 t1 t2 t5))
+      (if wr then writeSlot (logged m op [readSlot lit m s2, readSlot lit m s3]) s1 (F op [readSlot lit m s2, readSlot lit m s3])
+       else logged m op [readSlot lit m s1, readSlot lit m s2, readSlot lit m s3]) := by
+  simp only [emitSSS, run_append]
+  have A1 := regnear_run lit F cidx m s1 t0
+  have A2 := regnear_run lit F cidx (run lit F m (regnear cidx s1 t0).2) s2 t1
+  have A3 := regnear_run lit F cidx (run lit F (run lit F m (regnear cidx s1 t0).2) (regnear cidx s2 t1).2) s3 t2
+  generalize (regnear cidx s1 t0).1 = r1 at *
+  generalize (regnear cidx s2 t1).1 = r2 at *
+  generalize (regnear cidx s3 t2).1 = r3 at *
+  generalize run lit F m (regnear cidx s1 t0).2 = m1 at *
+  generalize run lit F m1 (regnear cidx s2 t1).2 = m2 at *
+  generalize run lit F m2 (regnear cidx s3 t2).2 = m3 at *
+  have S2 : Sim [t0, t1, t2, t5] m2 m := sim_chain2 A1.2.1 A2.2.1 (by simp) (by simp)
+  have S3 : Sim [t0, t1, t2, t5] m3 m := (A3.2.1.mono (by intro x hx; simp at hx; simp [hx])).trans S2
+  have e2 : readSlot lit m1 s2 = readSlot lit m s2 := readSlot_sim lit A1.2.1 s2 (avoids_sub a2 (by intro x hx; simp at hx; simp [hx]))
+  have e3 : readSlot lit m2 s3 = readSlot lit m s3 := readSlot_sim lit S2 s3 a3
+  have v3 : m3.regs r3 = readSlot lit m s3 := A3.1.trans e3
+  have v2 : m3.regs r2 = readSlot lit m s2 := by
+    rw [A3.2.1.regs r2 (by simpa using reg_ne A2.2.2 h12 a2 (by simp))]
+    exact A2.1.trans e2
+  have v1 : m3.regs r1 = readSlot lit m s1 := by
+    rw [A3.2.1.regs r1 (by simpa using reg_ne A1.2.2 h02 a1 (by simp)), A2.2.1.regs r1 (by simpa using reg_ne A1.2.2 h01 a1 (by simp))]
+    exact A1.1
+  cases wr with
+  | false =>
+    simp only [wb, Bool.false_eq_true, if_false, List.append_nil]
+    exact payload_nowr lit F op .sss [r1, r2, r3] 0 _ S3 (by simp [v1, v2, v3])
+  | true =>
+    simp only [wb, if_true]
+    exact payload_wr lit F cidx op .sss r1 [r2, r3] 0 s1 t5 _ S3 (by simp [v2, v3]) (reg_in A1.2.2 (by simp)) (by simp)
+      (Ne.symm (reg_ne A1.2.2 (Ne.symm h50) a1 (by simp))) (hw rfl)
+
+/-- `janetc_emit_ssi` / `janetc_emit_ssu` (emit2s), every slot kind combination -/
+theorem emit_ssi_correct (lit : KConst → β) (F) (cidx : KConst → Nat) (m : M β) (op : Nat) (wr : Bool) (s1 s2 : Slot) (imm : Nat)
+    (t0 t1 t5 : Nat) (h01 : t0 ≠ t1) (h50 : t5 ≠ t0)
+    (a1 : s1.avoids [t0, t1, t5]) (a2 : s2.avoids [t0, t1, t5])
+    (hw : wr = true → ∀ k, s1 ≠ .const k) :
+    Sim [t0, t1, t5] (run lit F m (emitSSI cidx op wr s1 s2 imm t0 t1 t5))
+      (if wr then writeSlot (logged m op [readSlot lit m s2]) s1 (F op [readSlot lit m s2])
+       else logged m op [readSlot lit m s1, readSlot lit m s2]) := by
+  simp only [emitSSI, run_append]
+  have A1 := regnear_run lit F cidx m s1 t0
+  have A2 := regnear_run lit F cidx (run lit F m (regnear cidx s1 t0).2) s2 t1
+  generalize (regnear cidx s1 t0).1 = r1 at *
+  generalize (regnear cidx s2 t1).1 = r2 at *
+  generalize run lit F m (regnear cidx s1 t0).2 = m1 at *
+  generalize run lit F m1 (regnear cidx s2 t1).2 = m2 at *
+  have S2 : Sim [t0, t1, t5] m2 m := sim_chain2 A1.2.1 A2.2.1 (by simp) (by simp)
+  have e2 : readSlot lit m1 s2 = readSlot lit m s2 := readSlot_sim lit A1.2.1 s2 (avoids_sub a2 (by intro x hx; simp at hx; simp [hx]))
+  have v2 : m2.regs r2 = readSlot lit m s2 := A2.1.trans e2
+  have v1 : m2.regs r1 = readSlot lit m s1 := by
+    rw [A2.2.1.regs r1 (by simpa using reg_ne A1.2.2 h01 a1 (by simp))]
+    exact A1.1
+  cases wr with
+  | false =>
+    simp only [wb, Bool.false_eq_true, if_false, List.append_nil]
+    exact payload_nowr lit F op .ssi [r1, r2] imm _ S2 (by simp [v1, v2])
+  | true =>
+    simp only [wb, if_true]
+    exact payload_wr lit F cidx op .ssi r1 [r2] imm s1 t5 _ S2 (by simp [v2]) (reg_in A1.2.2 (by simp)) (by simp)
+      (Ne.symm (reg_ne A1.2.2 (Ne.symm h50) a1 (by simp))) (hw rfl)
+
+/-- `janetc_emit_si` / `_su` / `_sl` / `_st` (emit1s) -/
+theorem emit_si_correct (lit : KConst → β) (F) (cidx : KConst → Nat) (m : M β) (op : Nat) (wr : Bool) (s : Slot) (imm : Nat)
+    (t0 t5 : Nat) (h50 : t5 ≠ t0) (a1 : s.avoids [t0, t5]) (hw : wr = true → ∀ k, s ≠ .const k) :
+    Sim [t0, t5] (run lit F m (emitSI cidx op wr s imm t0 t5))
+      (if wr then writeSlot (logged m op []) s (F op []) else logged m op [readSlot lit m s]) := by
+  simp only [emitSI, run_append]
+  have A1 := regnear_run lit F cidx m s t0
+  generalize (regnear cidx s t0).1 = r1 at *
+  generalize run lit F m (regnear cidx s t0).2 = m1 at *
+  have S1 : Sim [t0, t5] m1 m := A1.2.1.mono (by intro x hx; simp at hx; simp [hx])
+  cases wr with
+  | false =>
+    simp only [wb, Bool.false_eq_true, if_false, List.append_nil]
+    exact payload_nowr lit F op .si [r1] imm _ S1 (by simp [A1.1])
+  | true =>
+    simp only [wb, if_true]
+    exact payload_wr lit F cidx op .si r1 [] imm s t5 _ S1 (by simp) (reg_in A1.2.2 (by simp)) (by simp)
+      (Ne.symm (reg_ne A1.2.2 (Ne.symm h50) a1 (by simp))) (hw rfl)
+
+theorem regfar_in {s : Slot} {T : List Nat} {r t fr : Nat} (hr : r = t ∨ r = fr ∨ s = .loc r) (ht : t ∈ T) (hf : fr ∈ T) :
+    r ∈ T ∨ s = .loc r := by
+  rcases hr with hr | hr | hr
+  · exact Or.inl (hr ▸ ht)
+  · exact Or.inl (hr ▸ hf)
+  · exact Or.inr hr
+
+theorem regfar_ne {s : Slot} {T : List Nat} {r t fr u : Nat} (hr : r = t ∨ r = fr ∨ s = .loc r) (htu : t ≠ u) (hfu : fr ≠ u)
+    (ha : s.avoids T) (hu : u ∈ T) : r ≠ u := by
+  rcases hr with hr | hr | hr
+  · rw [hr]; exact htu
+  · rw [hr]; exact hfu
+  · intro h; exact ha r hr (h ▸ hu)
+
+/-- `janetc_emit_ss` (second operand through `janetc_regfar`: 16-bit register field) -/
+theorem emit_ss_correct (lit : KConst → β) (F) (cidx : KConst → Nat) (m : M β) (op : Nat) (wr : Bool) (s1 s2 : Slot)
+    (t0 t1 fr t5 : Nat) (h01 : t0 ≠ t1) (h0f : t0 ≠ fr) (h50 : t5 ≠ t0)
+    (a1 : s1.avoids [t0, t1, fr, t5]) (a2 : s2.avoids [t0, t1, fr, t5])
+    (hw : wr = true → ∀ k, s1 ≠ .const k) :
+    Sim [t0, t1, fr, t5] (run lit F m (emitSS cidx op wr s1 s2 t0 t1 fr t5))
+      (if wr then writeSlot (logged m op [readSlot lit m s2]) s1 (F op [readSlot lit m s2])
+       else logged m op [readSlot lit m s1, readSlot lit m s2]) := by
+  simp only [emitSS, run_append]
+  have A1 := regnear_run lit F cidx m s1 t0
+  have A2 := regfar_run lit F cidx (run lit F m (regnear cidx s1 t0).2) s2 t1 fr
+  generalize (regnear cidx s1 t0).1 = r1 at *
+  generalize (regfar cidx s2 t1 fr).1 = r2 at *
+  generalize run lit F m (regnear cidx s1 t0).2 = m1 at *
+  generalize run lit F m1 (regfar cidx s2 t1 fr).2 = m2 at *
+  have S2 : Sim [t0, t1, fr, t5] m2 m :=
+    (A2.2.1.mono (by intro x hx; simp at hx; rcases hx with hx | hx <;> simp [hx])).trans (A1.2.1.mono (by intro x hx; simp at hx; simp [hx]))
+  have e2 : readSlot lit m1 s2 = readSlot lit m s2 := readSlot_sim lit A1.2.1 s2 (avoids_sub a2 (by intro x hx; simp at hx; simp [hx]))
+  have v2 : m2.regs r2 = readSlot lit m s2 := A2.1.trans e2
+  have v1 : m2.regs r1 = readSlot lit m s1 := by
+    rw [A2.2.1.regs r1 (by
+      have n1 := reg_ne A1.2.2 h01 a1 (by simp)
+      have n2 := reg_ne A1.2.2 h0f a1 (by simp)
+      simp [n1, n2])]
+    exact A1.1
+  cases wr with
+  | false =>
+    simp only [wb, Bool.false_eq_true, if_false, List.append_nil]
+    exact payload_nowr lit F op .ss [r1, r2] 0 _ S2 (by simp [v1, v2])
+  | true =>
+    simp only [wb, if_true]
+    exact payload_wr lit F cidx op .ss r1 [r2] 0 s1 t5 _ S2 (by simp [v2]) (reg_in A1.2.2 (by simp)) (by simp)
+      (Ne.symm (reg_ne A1.2.2 (Ne.symm h50) a1 (by simp))) (hw rfl)
+
+/-- `janetc_emit_s` (operand through `janetc_regfar`: 24-bit register field).  NB for wr = 1 the C moves back from the far
+    register through 8-bit fields; the compiler only uses wr = 1 with local slots, where no far register is involved. -/
+theorem emit_s_correct (lit : KConst → β) (F) (cidx : KConst → Nat) (m : M β) (op : Nat) (wr : Bool) (s : Slot)
+    (t0 fr t5 : Nat) (h50 : t5 ≠ t0) (h5f : t5 ≠ fr) (a1 : s.avoids [t0, fr, t5]) (hw : wr = true → ∀ k, s ≠ .const k) :
+    Sim [t0, fr, t5] (run lit F m (emitS cidx op wr s t0 fr t5))
+      (if wr then writeSlot (logged m op []) s (F op []) else logged m op [readSlot lit m s]) := by
+  simp only [emitS, run_append]
+  have A1 := regfar_run lit F cidx m s t0 fr
+  generalize (regfar cidx s t0 fr).1 = r1 at *
+  generalize run lit F m (regfar cidx s t0 fr).2 = m1 at *
+  have S1 : Sim [t0, fr, t5] m1 m := A1.2.1.mono (by intro x hx; simp at hx; rcases hx with hx | hx <;> simp [hx])
+  cases wr with
+  | false =>
+    simp only [wb, Bool.false_eq_true, if_false, List.append_nil]
+    exact payload_nowr lit F op .s [r1] 0 _ S1 (by simp [A1.1])
+  | true =>
+    simp only [wb, if_true]
+    exact payload_wr lit F cidx op .s r1 [] 0 s t5 _ S1 (by simp) (regfar_in A1.2.2 (by simp) (by simp)) (by simp)
+      (Ne.symm (regfar_ne A1.2.2 (Ne.symm h50) (Ne.symm h5f) a1 (by simp))) (hw rfl)
+
+theorem writeSlot_self (lit : KConst → β) (T : List Nat) (m : M β) (s : Slot) : Sim T (writeSlot m s (readSlot lit m s)) m := by
+  cases s with
+  | loc i => exact ⟨fun x _ => by simp only [writeSlot, readSlot, upd]; split <;> simp_all, rfl, rfl, rfl, rfl⟩
+  | up e i =>
+    refine ⟨fun _ _ => rfl, ?_, rfl, rfl, rfl⟩
+    funext e' j
+    simp only [writeSlot, readSlot, upd2]
+    split
+    · rename_i h; rw [h.1, h.2]
+    · rfl
+  | const k => exact Sim.refl _ _
+  | ref id =>
+    refine ⟨fun _ _ => rfl, rfl, ?_, rfl, rfl⟩
+    funext j
+    simp only [writeSlot, readSlot, upd]
+    split
+    · rename_i h; rw [h]
+    · rfl
+
+theorem copy_unfold (cidx : KConst → Nat) (dest src : Slot) (t3 t5 : Nat) (hc : ∀ k, dest ≠ .const k) :
+    copy cidx dest src t3 t5 =
+      (if dest = src then [] else if dest.nearLocal then movenear cidx dest.index src
+       else if src.nearLocal then moveback cidx t5 dest src.index
+       else movenear cidx t3 src ++ moveback cidx t5 dest t3) := by
+  cases dest with
+  | const k => exact absurd rfl (hc k)
+  | loc i => rfl
+  | up e i => rfl
+  | ref id => rfl
+
+theorem nearLocal_loc {s : Slot} (h : s.nearLocal = true) : ∃ i, s = .loc i := by
+  cases s with
+  | loc i => exact ⟨i, rfl⟩
+  | up e i => simp [Slot.nearLocal] at h
+  | const k => simp [Slot.nearLocal] at h
+  | ref id => simp [Slot.nearLocal] at h
+
+/-- `janetc_copy`: destination slot := value of the source slot, for all 4 x 5 kind combinations -/
+theorem copy_correct (lit : KConst → β) (F) (cidx : KConst → Nat) (m : M β) (dest src : Slot) (t3 t5 : Nat)
+    (h35 : t3 ≠ t5) (ad : dest.avoids [t3, t5]) (as : src.avoids [t3, t5]) (hc : ∀ k, dest ≠ .const k) :
+    Sim [t3, t5] (run lit F m (copy cidx dest src t3 t5)) (writeSlot m dest (readSlot lit m src)) := by
+  rw [copy_unfold cidx dest src t3 t5 hc]
   by_cases heq : dest = src
-  · subst heq; simp [copy, run]; intro h; rw [h]
-  · by_cases hdn : dest ≤ 0xFF <;> by_cases hsn : src ≤ 0xFF <;>
-      simp [copy, moveback, run, exec, upd, heq, hdn, hsn, Ne.symm heq] <;>
-      (by_cases hrd : r = dest <;> simp_all [exec, upd, Ne.symm])
-
-end JanetModel.Emit
-
-namespace JanetModel.Emit
+  · rw [if_pos heq, run_nil, heq]
+    exact (writeSlot_self lit _ m src).symm
+  · rw [if_neg heq]
+    by_cases hdn : dest.nearLocal = true
+    · rw [if_pos hdn]
+      obtain ⟨i, hi⟩ := nearLocal_loc hdn
+      subst hi
+      have A := movenear_run lit F cidx m i src
+      show Sim [t3, t5] (run lit F m (movenear cidx i src)) (writeSlot m (.loc i) (readSlot lit m src))
+      refine ⟨fun x hx => ?_, A.2.up, A.2.cell, A.2.log, A.2.ok⟩
+      simp only [writeSlot, upd]
+      by_cases hxi : x = i
+      · rw [if_pos hxi, hxi]; exact A.1
+      · rw [if_neg hxi]; exact A.2.regs x (by simp [hxi])
+    · rw [if_neg hdn]
+      by_cases hsn : src.nearLocal = true
+      · rw [if_pos hsn]
+        obtain ⟨j, hj⟩ := nearLocal_loc hsn
+        subst hj
+        have h5 : t5 ≠ j := fun h => as j rfl (by simp [h])
+        have B := moveback_run lit F cidx m dest j t5 hc h5
+        show Sim [t3, t5] (run lit F m (moveback cidx t5 dest j)) (writeSlot m dest (m.regs j))
+        exact B.mono (by intro x hx; simp at hx; simp [hx])
+      · rw [if_neg hsn, run_append]
+        have A := movenear_run lit F cidx m t3 src
+        generalize run lit F m (movenear cidx t3 src) = m1 at *
+        have B := moveback_run lit F cidx m1 dest t3 t5 hc (Ne.symm h35)
+        rw [A.1] at B
+        refine (B.mono (by intro x hx; simp at hx; simp [hx])).trans ?_
+        exact writeSlot_sim dest _ t3 (A.2.mono (by intro x hx; simp at hx; simp [hx])) (Or.inl (by simp))
 
 /-! ### `janetc_regalloc_temp` -/
 
@@ -158,5 +533,22 @@ theorem regtemp_disjoint (ra : RA) (fuel tag1 tag2 : Nat) (ht : tag1 ≠ tag2) (
   · exact absurd hgt (by omega)
   · exact ⟨by omega, by omega, by omega, Or.inl ha1, Or.inr (by omega)⟩
   · exact ⟨by omega, by omega, by omega, Or.inl ha1, Or.inl ha2⟩
+
+theorem firstFit_congr (a b : RA) (h : ∀ x, a.alloc x = b.alloc x) : ∀ fuel r, firstFit a fuel r = firstFit b fuel r := by
+  intro fuel
+  induction fuel with
+  | zero => intro r; rfl
+  | succ n ih => intro r; simp only [firstFit, RA.taken, h, ih] <;> rfl
+
+/-- the stateful `janetc_regalloc_temp` of the correspondence model returns the register described by `regallocTemp` and
+    marks the same register: `regtemp_disjoint` speaks about the function that is compared with regalloc.c -/
+theorem allocTemp_eq (ra : RA) (tag : Nat) :
+    (ra.allocTemp tag).1 = (regallocTemp ra searchFuel tag).1 ∧
+    ∀ x, (ra.allocTemp tag).2.alloc x = (regallocTemp ra searchFuel tag).2.alloc x := by
+  have hc := firstFit_congr { ra with temps := fun j => if j = tag then true else ra.temps j } ra (fun _ => rfl) searchFuel 0
+  simp only [RA.allocTemp, RA.alloc1, regallocTemp, hc]
+  constructor
+  · split <;> rfl
+  · intro x; split <;> rfl
 
 end JanetModel.Emit
